@@ -240,11 +240,19 @@ Definition listing_eqb (a b : listing) : bool :=
   list_eqb pNn_eqb n1 n2 && option_eqb N.eqb r1 r2 && list_eqb pnn_eqb m1 m2
   && option_eqb Nat.eqb f1 f2 && option_eqb Nat.eqb s1 s2.
 
-(* a case: the history, with what the implementation did at each step
-   (outcome code and the listing after the step) *)
-Definition case := list (op * nat * listing).
+(* a case: the pre-existing workflow dir (numbered runs created by hand / long ago, with
+   their stamps, and the runN target; ([], None) = never installed), then the history with
+   what the implementation did at each step (outcome code and the listing after the step) *)
+Definition trace := list (op * nat * listing).
+Definition case := ((list (N * nat) * option N) * trace)%type.
 
-Fixpoint check_from (s : st) (tr : case) : bool :=
+Definition init_of (i : list (N * nat) * option N) : st :=
+  match i with
+  | ([], None) => empty
+  | (l, r) => {| numbered := l; runN := r; named := []; flat := None; source := Some 0 |}
+  end.
+
+Fixpoint check_from (s : st) (tr : trace) : bool :=
   match tr with
   | [] => true
   | (o, code, l) :: r =>
@@ -252,12 +260,12 @@ Fixpoint check_from (s : st) (tr : case) : bool :=
       Nat.eqb (outcome_code out) code && listing_eqb (listing_of s') l && check_from s' r
   end.
 
-Definition check_case (c : case) : bool := check_from empty c.
+Definition check_case (c : case) : bool := check_from (init_of (fst c)) (snd c).
 
-Fixpoint model_trace (s : st) (tr : case) : list (nat * listing) :=
+Fixpoint model_trace (s : st) (tr : trace) : list (nat * listing) :=
   match tr with
   | [] => []
   | (o, _, _) :: r =>
       let '(s', out) := step s o in (outcome_code out, listing_of s') :: model_trace s' r
   end.
-Definition model_out (c : case) := model_trace empty c.
+Definition model_out (c : case) := model_trace (init_of (fst c)) (snd c).
